@@ -1,12 +1,13 @@
 (* C05 -- Static typing discipline.  ONLY property theorems here.  The declarative rules are spec/Typing.v
    (docs/language.md, DESIGN.md Appendix E); the theorems say that every typing DECISION of the builder is the table's. *)
-From QV Require Import model.Base model.Lang model.Types model.Tir model.Ceval model.Builder spec.Typing proofs.TypingProofs proofs.BuilderInv proofs.BuilderSafe proofs.TypingSound.
+From QV Require Import model.Base model.Lang model.Types model.Tir model.Ceval model.Builder spec.Typing proofs.TypingProofs proofs.BuilderInv proofs.BuilderSafe proofs.TypingSound gen.GenE0.
 
 (* The FULL statement -- a whole program is accepted iff it is well typed in the declarative system -- is a theorem for
-   the direction "ill-typed is never accepted" on the expression fragment of literals, local variables, unary, binary
-   (incl. && ||) and conditional operators in any nesting (C05_accepted_expressions_are_typed, by induction over
-   expressions through the builder's state monad; at the end of this file).  For member access, calls, subscripts, casts,
-   assignments and statements what is proved is that each typing DECISION the builder takes coincides with the table; the
+   the direction "ill-typed is never accepted" on the expression fragment of literals, local variables, objects named by
+   id, `this`, property reads `o.p`, subscripts `o[i]`, casts `e as T`, unary, binary (incl. && ||) and conditional operators
+   in any nesting (C05_accepted_expressions_are_typed, by induction over expressions through the builder's state monad; at
+   the end of this file).  For calls, arrays, assignments, implicit this-properties, enum and type names, and statements
+   what is proved is that each typing DECISION the builder takes coincides with the table; the
    check then decides whole programs one by one (exhaustive operator table, generated programs, single-edit mutants)
    through the model/code correspondence and the specification's verdict. *)
 
@@ -70,18 +71,19 @@ Print Assumptions C05_common_type.
 
 (* Whole expressions.  `Typed E G e d` (proofs/TypingSound.v) is the declarative typing relation: its rules are the tables
    spec_unary / spec_binary / common_concrete of spec/Typing.v, one rule per node kind, with the folder's one documented
-   exception (null == null).  Every expression of the fragment `frag` (literals, locals, unary, binary incl. && ||, ?: in any
-   nesting) that the translator accepts -- in any state reached from the one the typing context is read from -- has a
+   exception (null == null); o.p needs a readable property p of the class of o (or of an ancestor), o[i] a list and an integer index,
+   e as T one of the documented casts.  Every expression of the fragment `frag` (literals, locals, objects by id, this, o.p, o[i],
+   e as T, unary, binary incl. && ||, ?: in any nesting) that the translator accepts -- in any state reached from the one the typing context is read from -- has a
    derivation whose type descriptor is the descriptor of the operand the translator returns. *)
 Theorem C05_accepted_expressions_are_typed : forall E env s0, envwf (List.length (bs_locals s0)) env ->
-  forall e, frag env e = true -> forall s a s', Rel s0 s -> walk_rvalue E env e s = (V a, s') ->
+  forall e, frag E env e = true -> forall s a s', Rel s0 s -> walk_rvalue E env e s = (V a, s') ->
   Typed E (ctx_of env s0) e (operand_tdesc a).
-Proof. intros E env s0 Hw e Hf s a s' HR H. exact (proj1 (rvalue_typed E env s0 Hw e Hf s a s' HR H)). Qed.
+Proof. intros E env s0 Hw e Hf s a s' HR H. exact (rvalue_typed E env s0 Hw e Hf s a s' HR H). Qed.
 Print Assumptions C05_accepted_expressions_are_typed.
 
 (* the contrapositive a user relies on: an expression with no typing derivation is never accepted *)
 Theorem C05_ill_typed_expressions_are_rejected : forall E env s0 e,
-  envwf (List.length (bs_locals s0)) env -> frag env e = true ->
+  envwf (List.length (bs_locals s0)) env -> frag E env e = true ->
   (forall d, ~ Typed E (ctx_of env s0) e d) -> forall a s', walk_rvalue E env e s0 <> (V a, s').
 Proof. exact ill_typed_expression_is_rejected. Qed.
 Print Assumptions C05_ill_typed_expressions_are_rejected.
@@ -89,8 +91,17 @@ Print Assumptions C05_ill_typed_expressions_are_rejected.
 (* non-vacuity: (1 + 2) * x > 0 ? x : -x over an int local is in the fragment and accepted with type int; 1 + true is in the
    fragment and rejected *)
 Example C05_typed_example :
-  envwf (List.length (bs_locals ex_state)) ex_env /\ frag ex_env ex_expr = true /\
+  envwf (List.length (bs_locals ex_state)) ex_env /\ frag ex_E ex_env ex_expr = true /\
   (exists a s', walk_rvalue ex_E ex_env ex_expr ex_state = (V a, s') /\ operand_tdesc a = DConcrete T_INT) /\
-  frag ex_env (EBinary BAdd (EInt 1) (EBool true)) = true /\
+  frag ex_E ex_env (EBinary BAdd (EInt 1) (EBool true)) = true /\
   fst (walk_rvalue ex_E ex_env (EBinary BAdd (EInt 1) (EBool true)) ex_state) = F.
 Proof. exact typed_example. Qed.
+
+(* ... and over the class environment E0 of the correspondence checks: a.i + (a.next.nums[0] as int) is in the fragment and accepted with type
+   int; a.nums[a.d] (a double as index) is in the fragment and rejected *)
+Example C05_typed_example_members :
+  let e1 := EBinary BAdd (EMember (EIdent "a") "i") (EAs (ESubscript (EMember (EMember (EIdent "a") "next") "nums") (EInt 0)) ["int"%string]) in
+  let e2 := ESubscript (EMember (EIdent "a") "nums") (EMember (EIdent "a") "d") in
+  frag E0 [] e1 = true /\ (exists a s', walk_rvalue E0 [] e1 bstate0 = (V a, s') /\ operand_tdesc a = DConcrete T_INT) /\
+  frag E0 [] e2 = true /\ fst (walk_rvalue E0 [] e2 bstate0) = F.
+Proof. cbv zeta. split; [reflexivity|]. split; [eexists; eexists; split; [vm_compute; reflexivity|reflexivity]|]. split; reflexivity. Qed.
